@@ -1,6 +1,6 @@
 (* C09 (reader half): arbitrary bytes given to the GPMF reader give a tree or an error. *)
 From Coq Require Import String List ZArith NArith Bool.
-From TT Require Import Base.Outcome Gpmf.Klv Proofs.NoCrash Proofs.C09_proofs.
+From TT Require Import Base.Outcome Gpmf.Klv Gpmf.Mp4 Proofs.NoCrash Proofs.C09_proofs Proofs.C09_dec_proofs.
 Import ListNotations.
 
 (* For every byte string the reader model returns Ok or Err: no Go panic site is reachable
@@ -28,3 +28,17 @@ Print Assumptions C09_reader_level_total.
 Theorem C09_faces_total : forall m size count raw d, no_crash (parse_faces m size count raw d).
 Proof. exact parse_faces_nc. Qed.
 Print Assumptions C09_faces_total.
+
+(* Decoder half: for arbitrary sample tables (stts/stsc/stsz/stco contents of any shape, counts
+   that disagree, chunk numbers out of range, offsets beyond the file), any payload bytes and any
+   number of tracks the decoder model returns a tree or an error - no panic site (index out of
+   range on the tables, slice bounds on the file) is reachable and every loop ends within its
+   fuel.  The two side conditions say only that the parsed 32-bit table entries are unsigned and
+   that the chunk-offset table has fewer than 2^32-1 entries, which every file satisfies. *)
+Theorem C09_decoder_total :
+  forall file traks,
+    Forall (fun tr => (Z.of_nat (length (t_offsets (tr_tables tr))) < 2 ^ 32 - 1)%Z /\
+                      Forall (fun e => (0 <= fst e)%Z) (t_stsc (tr_tables tr))) traks ->
+    returns (decode file traks).
+Proof. exact decode_total. Qed.
+Print Assumptions C09_decoder_total.
